@@ -88,6 +88,19 @@ Theorem attr_table_is_a_map :
 Proof. exact attr_table_map_proof. Qed.
 Print Assumptions attr_table_is_a_map.
 
+(* whatever an attribute value contains, the scan for its closing quote stops exactly at the renderer's own
+   quote; whatever a text node contains, the scan for the next tag stops exactly at the next tag the renderer
+   wrote *)
+Theorem attr_scan_stops_at_own_quote :
+  forall v rest, span (fun c => negb (c =? 34)) (escape v ++ 34 :: rest) = (escape v, 34 :: rest).
+Proof. exact attr_scan_stops_proof. Qed.
+Print Assumptions attr_scan_stops_at_own_quote.
+
+Theorem text_scan_stops_at_own_end :
+  forall s X, span (fun c => negb (c =? 60)) (escape s ++ 60 :: X) = (escape s, 60 :: X).
+Proof. exact text_scan_stops_proof. Qed.
+Print Assumptions text_scan_stops_at_own_end.
+
 (* the hard one: for every tree (any depth, fan-out, sizes; element and attribute names non-empty runs of name
    bytes; text and attribute values ARBITRARY byte strings) the reference parser reads the rendering back as
    exactly the document the tree stands for: same names, effective namespaces, attributes, child order, text
